@@ -58,10 +58,10 @@ def make_prior(kind, d, batch_shape=(), hyper=None):
         else:
             nb = int(torch.Size(bs).numel())
             ls0 = 0.9 if hyper is None else hyper
-            ls = torch.tensor([[ls0 + 0.15 * k + 0.1 * i for i in range(d)] for k in range(nb)], dtype=D).reshape(*bs, 1, d)
+            ls = torch.tensor([[ls0 + 0.15 * (k % 5) + 0.04 * (k // 5) + 0.1 * i for i in range(d)] for k in range(nb)], dtype=D).reshape(*bs, 1, d)
             covar.base_kernel.lengthscale = ls
-            covar.outputscale = torch.tensor([1.3 - 0.2 * k for k in range(nb)], dtype=D).reshape(bs)
-            mean.constant.copy_(torch.tensor([0.3 - 0.5 * k for k in range(nb)], dtype=D).reshape(bs))
+            covar.outputscale = torch.tensor([1.3 - 0.2 * (k % 5) + 0.03 * (k // 5) for k in range(nb)], dtype=D).reshape(bs)
+            mean.constant.copy_(torch.tensor([0.3 - 0.5 * (k % 5) + 0.07 * (k // 5) for k in range(nb)], dtype=D).reshape(bs))
     return mean, covar
 
 
@@ -208,6 +208,19 @@ def base_name(cfg):
     return cfg.get("base", "VariationalStrategy")
 
 
+def latent_dim(cfg):
+    """the batch dimension of the wrapped strategy that holds the latent functions / tasks (negative index; VariationalQF.tla
+    LatentDim); cfg["given"] is the same dimension as the independent wrapper is given it (may be non-negative)"""
+    return cfg.get("ld", -1)
+
+
+def mv_dim(cfg):
+    """mean_var_batch_dim of the batch-decoupled strategy (VariationalQF.tla MVInfo; None: not named)"""
+    if "mvd" in cfg:
+        return cfg["mvd"]
+    return -1 if cfg.get("variant") == "split" else None
+
+
 def build(cfg, Z, prior_hyper=None, Zc=None):
     """cfg: strat, dist, bp (batch shape of the variational parameters), kernel, jitter (None = library default),
     variant.  Z: inducing points [*bz, M, d] (ignored by the grid strategy).  Returns the model in float64 with
@@ -218,9 +231,9 @@ def build(cfg, Z, prior_hyper=None, Zc=None):
     d = Z.shape[-1] if Z is not None else 1
     kbatch = ()
     if strat == "BatchDecoupledVariationalStrategy" and cfg.get("variant") == "split":
-        kbatch = (2,)
+        kbatch = tuple(cfg["kb"]) if cfg.get("kb") is not None else (2,)
     if strat in ("LMCVariationalStrategy", "IndependentMultitaskVariationalStrategy") and cfg.get("variant") == "batchkernel":
-        kbatch = (cfg["Q"],)
+        kbatch = tuple(cfg["kb"]) if cfg.get("kb") is not None else (cfg["Q"],)
     mean, covar = make_prior(cfg["kernel"], d, kbatch, prior_hyper)
     M = Z.shape[-2] if Z is not None else None
     kw = {} if jv is None else dict(jitter_val=jv)
@@ -229,9 +242,11 @@ def build(cfg, Z, prior_hyper=None, Zc=None):
         if strat in ("VariationalStrategy", "UnwhitenedVariationalStrategy", "CiqVariationalStrategy"):
             return getattr(V, strat)(model, Z, DIST_CLS[dist](M, batch_shape=bp), learn_inducing_locations=True, **kw)
         if strat == "BatchDecoupledVariationalStrategy":
-            # Z: [*bz, 2, M, d] (mean set, variance set); the constructor stacks one set twice, the parameter is overwritten below
-            return V.BatchDecoupledVariationalStrategy(model, Z.select(-3, 0), DIST_CLS[dist](M, batch_shape=bp), learn_inducing_locations=True,
-                                                       mean_var_batch_dim=(-1 if cfg.get("variant") == "split" else None), **kw)
+            # Z: [*bz, 2, M, d] (mean set, variance set) - for mean_var_batch_dim = -2: [2, *bp, M, d]; the constructor stacks one set
+            # twice, the parameter is overwritten below
+            mvd = mv_dim(cfg)
+            return V.BatchDecoupledVariationalStrategy(model, Z.select((mvd or -1) - 2, 0), DIST_CLS[dist](M, batch_shape=bp), learn_inducing_locations=True,
+                                                       mean_var_batch_dim=mvd, **kw)
         if strat == "OrthogonallyDecoupledVariationalStrategy":
             cov_vs = getattr(V, base_name(cfg))(model, Zc, DIST_CLS[dist](Zc.shape[-2], batch_shape=torch.Size(cfg.get("bpc", ()))), learn_inducing_locations=True, **kw)
             return V.OrthogonallyDecoupledVariationalStrategy(cov_vs, Z, V.DeltaVariationalDistribution(M, batch_shape=bp), **kw)
@@ -240,10 +255,10 @@ def build(cfg, Z, prior_hyper=None, Zc=None):
             return V.GridInterpolationVariationalStrategy(model, gs, gb, DIST_CLS[dist](gs ** len(gb), batch_shape=bp))
         if strat == "LMCVariationalStrategy":
             b = getattr(V, base_name(cfg))(model, Z, DIST_CLS[dist](M, batch_shape=bp), learn_inducing_locations=True, **kw)
-            return V.LMCVariationalStrategy(b, num_tasks=cfg["T"], num_latents=cfg["Q"], latent_dim=-1, **kw)
+            return V.LMCVariationalStrategy(b, num_tasks=cfg["T"], num_latents=cfg["Q"], latent_dim=latent_dim(cfg), **kw)
         if strat == "IndependentMultitaskVariationalStrategy":
             b = getattr(V, base_name(cfg))(model, Z, DIST_CLS[dist](M, batch_shape=bp), learn_inducing_locations=True, **kw)
-            return V.IndependentMultitaskVariationalStrategy(b, num_tasks=cfg["Q"], task_dim=-1)
+            return V.IndependentMultitaskVariationalStrategy(b, num_tasks=cfg["Q"], task_dim=cfg.get("given", latent_dim(cfg)))
         raise ValueError(strat)
 
     model = Model(mk, mean, covar).to(D)
@@ -344,9 +359,13 @@ def oracle(cfg, model, X, mode="eval", kl_after_forward=True):
             mean, cov, kl = inducing_qf(strat, cfg, model, vs, dist, vs._variational_distribution, X, mode, kl_after_forward)
             return dict(mean=mean, cov=cov, kl=kl)
         if strat == "BatchDecoupledVariationalStrategy":
-            Z = vs.inducing_points.detach()                      # [*bz, 2, M, d]
-            Xe = X.unsqueeze(-3)
-            mz, mx, Kzz, Kxz, Kxx = joint(model, Z, Xe)          # [..., 2, ...]
+            Z = vs.inducing_points.detach()                      # [*bz, 2, M, d]; the mean / variance dimension sits at batch index mvd
+            mvd = mv_dim(cfg) or -1
+            Xe = X.unsqueeze(mvd - 2)                            # the inputs have no mean / variance dimension
+            mz, mx, Kzz, Kxz, Kxx = joint(model, Z, Xe)
+            # the closed form below reads the mean set / variance set from the LAST batch dimension
+            mz, mx = mz.movedim(mvd - 1, -2), mx.movedim(mvd - 1, -2)
+            Kzz, Kxz, Kxx = Kzz.movedim(mvd - 2, -3), Kxz.movedim(mvd - 2, -3), Kxx.movedim(mvd - 2, -3)      # [..., 2, ...]
             M, N = Z.shape[-2], X.shape[-2]
             m, S = dist_moments(dist, read_raw(dist, vs._variational_distribution))
             Kj = Kzz + j * eye(M)
@@ -395,12 +414,20 @@ def oracle(cfg, model, X, mode="eval", kl_after_forward=True):
             base = vs.base_variational_strategy
             lm, lc, lkl = inducing_qf(base_name(cfg), cfg, model, base, dist, base._variational_distribution, X, mode, kl_after_forward)
             Q, N = cfg["Q"], X.shape[-2]
+            ld = latent_dim(cfg)
             lj = 0.0 if (cfg.get("ov") or {}).get("lmcjit") == 0 else getattr(vs, "jitter_val", 0.0)
-            full = torch.broadcast_shapes(lm.shape[:-1], lc.shape[:-2])
-            lm, lc = lm.expand(*full, N), lc.expand(*full, N, N)          # [..., Q, N], [..., Q, N, N]
+            pshape = tuple(base._variational_distribution.batch_shape)
+            full = torch.broadcast_shapes(lm.shape[:-1], lc.shape[:-2], pshape)
+            klfull = torch.broadcast_shapes(lkl.shape, pshape)      # KL(q(u) || p(u)): one value per GP of the batch; the inputs play no role
+            if full[ld] != Q or klfull[ld] != Q:
+                raise ValueError("oracle: dimension %d of the latent batch %s is not the latent dimension (Q = %d)" % (ld, tuple(full), Q))
+            # the denotation is indexed by (remaining batch entry, latent): bring the latent dimension behind the remaining ones
+            lm = lm.expand(*full, N).movedim(ld - 1, -2)                  # [..., Q, N]
+            lc = lc.expand(*full, N, N).movedim(ld - 2, -3)               # [..., Q, N, N]
+            kl = lkl.expand(klfull).movedim(ld, -1).sum(-1)               # sum over the latents, one value per remaining batch entry
             if strat == "LMCVariationalStrategy":
-                A = vs.lmc_coefficients.detach()                          # [..., Q, T]
-                A = A.expand(*full, A.shape[-1])
+                A = vs.lmc_coefficients.detach()                          # [*pshape, T]
+                A = A.expand(*full, A.shape[-1]).movedim(ld - 1, -2)      # [..., Q, T]
                 ti = cfg.get("task_indices")
                 if ti is None:
                     mean = torch.einsum("...qn,...qt->...nt", lm, A)
@@ -411,7 +438,7 @@ def oracle(cfg, model, X, mode="eval", kl_after_forward=True):
                     Asel = A[..., torch.tensor(ti)]                          # [..., Q, N]
                     mean = (lm * Asel).sum(-2)
                     cov = (lc * Asel.unsqueeze(-1) * Asel.unsqueeze(-2)).sum(-3) + lj * eye(N)
-                return dict(mean=mean, cov=cov, kl=lkl.expand(full).sum(-1) if lkl.dim() else lkl)
+                return dict(mean=mean, cov=cov, kl=kl, latent_kl=lkl.expand(klfull))
             ti = cfg.get("task_indices")
             if ti is None:
                 mean = lm.transpose(-1, -2)                               # [..., N, T]
@@ -422,7 +449,7 @@ def oracle(cfg, model, X, mode="eval", kl_after_forward=True):
                 ar = torch.arange(N)
                 mean = lm[..., t, ar]
                 cov = lc[..., t, :, :][..., ar, ar, :] * (t.unsqueeze(-1) == t.unsqueeze(-2)).to(D)
-            return dict(mean=mean, cov=cov, kl=lkl.expand(full).sum(-1) if lkl.dim() else lkl)
+            return dict(mean=mean, cov=cov, kl=kl, latent_kl=lkl.expand(klfull))
     raise ValueError(strat)
 
 
